@@ -74,6 +74,9 @@ type Config struct {
 type First struct {
 	Content string   `json:"content,omitempty"`
 	FlagSet []uint32 `json:"flag_set,omitempty"`
+	// StopAt: call ordinals at which the function turns the request away (TERMINATE in its
+	// FlagSet; its content is then what the client is shown)
+	StopAt []int `json:"stop_at,omitempty"`
 }
 
 // App is a whole application.
